@@ -59,7 +59,7 @@ kf("KF-alloc-type-iter", ["C01", "C04"],
 kf("KF-shift-loop-alloc-type", ["C01", "C04"],
    "shift_loop (via cut_loop_and_unroll) does not substitute the shifted iterator inside an allocation type, so the buffer is too small",
    "LoopIR_scheduling.DoShiftLoop",
-   {"op": ["std.cut_loop_and_unroll", "shift_loop"], "kind": ["abort", "oob", "oob_base"], "seed": "alloc/dep_extent"},
+   {"op": ["std.cut_loop_and_unroll", "shift_loop"], "kind": ["abort", "oob", "oob_base"], "cause": RE(r"alloc-extent-uses-iter")},
    "seed alloc/dep_extent: cut_loop_and_unroll(i, 1)")
 kf("KF-divide-recompute-zero-outer", ["C01", "C04"],
    "divide_with_recompute accepts an outer extent that can be 0 (or a loop with non-zero lower bound), so the body is never executed / the new loop has hi < lo",
@@ -144,7 +144,7 @@ kf("KF-print-bool-mem", ["C17"],
 kf("KF-shared-nodes-else-branch", ["C01", "C10", "C04"],
    "specialize puts the same statement objects into both branches of the new if (Alpha_Rename returns unchanged nodes as they are); later analyses locate the focused statement by object identity, find it in the then-branch first and therefore analyse a statement of the else-branch under the un-negated condition (eliminate_dead_code keeps a dead body, add_loop accepts a zero-trip bound, ...)",
    "LoopIR_scheduling.DoSpecialize + new_eff.ContextExtraction (`s is self.stmts[0]`)",
-   {"cause": RE(r"target-in-else-branch,source-has-shared-nodes")},
+   {"where": RE(r"else-branch,shared-nodes")},
    "seed config/loopbound: specialize(loop body, 'i == 0'); eliminate_dead_code(`if i == CFG.a` in the else branch)")
 kf("KF-bind-expr-by-ref-arg", ["C01", "C04"],
    "bind_expr / bind_config on a scalar passed by reference to a call binds a copy and passes the copy, so the callee's write to the scalar is lost",
@@ -196,5 +196,10 @@ for _ins, _what in [
     ("mm256_fmadd_ps_broadcast", "passes the scalar rhs[0] where _mm256_fmadd_ps expects a __m256: the expansion does not compile"),
 ]:
     kf(f"KF-x86-{_ins}", ["C14"], f"x86 instruction {_ins}: {_what}", "platforms/x86.py", {"instr": _ins}, f"wrapper w_{_ins}_0 generated by vf/checks/c14.py")
+kf("KF-print-negative-zero", ["C17"],
+   "a unary minus applied to the literal 0 (left behind by index arithmetic such as `-(0) + k`) is printed `-0`; the parser folds it to the literal 0, which prints `0`, so the re-printed text differs",
+   "core/LoopIR_pprint (USub of Const) / frontend/pyparser (folding of negative literals)",
+   {"kind": ["reprint-differs"], "only_negative_zero": True},
+   "seed expr/prec: cut_loop_and_unroll(i, 1) prints `x[-0 + k + n]`")
 json.dump({"findings": F}, open(os.path.join(HERE, "known_findings.json"), "w"), indent=1)
 print(len(F), "entries")
